@@ -445,9 +445,23 @@ theorem wfGG (a b : Option Fn) (x y : Option (Option Fn)) (pe pc de dc : Trit) :
        | (by_cases h24 : k2 = k4 <;> atom h24 <;> fin4w)
        | fin4w)
 
+/-- the part of `WFDesc` that well-formedness preservation needs (also met by a stored property
+    used as a descriptor, as freeze / seal / put do) -/
+def WFDescW (d : MProp) : Prop :=
+  match d.value with
+  | .gs _ _ => d.mode.w = .unset
+  | _ => True
+
+theorem WFDesc.weak {d : MProp} (h : WFDesc d) : WFDescW d := by
+  obtain ⟨v, m⟩ := d
+  cases v with
+  | gs g s => exact h.1
+  | nil => trivial
+  | val v => trivial
+
 /-- an accepted redefinition of a well-formed property by a well-formed descriptor writes a
     well-formed property, outside `acc_to_data_keeps_accessor` -/
-theorem defineProp_wf (prop d p : MProp) (hp : WFProp prop) (hd : WFDesc d) (hdev : devA2D prop d = false)
+theorem defineProp_wf (prop d p : MProp) (hp : WFProp prop) (hd : WFDescW d) (hdev : devA2D prop d = false)
     (h : defineProp prop d = some (some p)) : WFProp p := by
   have key : WFGoal prop d := by
     obtain ⟨pval, ⟨pw, pe, pc⟩⟩ := prop
@@ -459,8 +473,7 @@ theorem defineProp_wf (prop d p : MProp) (hp : WFProp prop) (hd : WFDesc d) (hde
       | nil => exact wfVN pv pw pe pc dw de dc
       | val dv => exact wfVV pv dv pw pe pc dw de dc
       | gs dg ds =>
-        obtain ⟨hw, _⟩ := hd
-        simp only at hw
+        have hw : dw = .unset := hd
         subst hw
         exact wfVG pv dg ds pw pe pc de dc
     | gs pg ps =>
@@ -471,8 +484,7 @@ theorem defineProp_wf (prop d p : MProp) (hp : WFProp prop) (hd : WFDesc d) (hde
       | nil => exact wfGN pg ps hg hs pe pc dw de dc
       | val dv => exact wfGV pg ps dv pe pc dw de dc
       | gs dg ds =>
-        obtain ⟨hw, _⟩ := hd
-        simp only at hw
+        have hw : dw = .unset := hd
         subst hw
         have := wfGG (slotFn pg) (slotFn ps) (slotField dg) (slotField ds) pe pc de dc
         rw [pslot_slotFn hg, pslot_slotFn hs, dslot_slotField, dslot_slotField] at this
@@ -481,14 +493,13 @@ theorem defineProp_wf (prop d p : MProp) (hp : WFProp prop) (hd : WFDesc d) (hde
   rw [h] at this
   exact (wfb_iff p).1 this
 
-theorem createProp_wf (d : MProp) (hd : WFDesc d) : WFProp (createProp d) := by
+theorem createProp_wf (d : MProp) (hd : WFDescW d) : WFProp (createProp d) := by
   obtain ⟨dval, ⟨dw, de, dc⟩⟩ := d
   cases dval with
   | nil => trivial
   | val v => trivial
   | gs g s =>
-    obtain ⟨hw, _⟩ := hd
-    simp only at hw
+    have hw : dw = .unset := hd
     subst hw
     cases g <;> cases s <;> exact ⟨by simp [createProp, normSlot], by simp [createProp, normSlot], rfl⟩
 
